@@ -1450,6 +1450,17 @@ class C05(Prop):
         import c05ref
         return c05ref.check(case, impl)
 
+    def known_class(self, case, impl, model):
+        import c05ref
+        why = c05ref.check(case, impl) or ""
+        m = re.match(r"resource (g\d+) is declared in the source without a binding annotation and without a metadata entry", why)
+        if m:
+            i = int(m.group(1)[1:])
+            decls = case.split()[9:]
+            if i < len(decls) and decls[i].split(",")[1] == "0":
+                return "unbounded-array-not-bound"
+        return None
+
     def nontrivial(self, case, impl):
         return impl.startswith("OK") and len(case.split()) > 10
 
